@@ -1139,3 +1139,13 @@ Theorem C04_in_lang_reading :
   forall (vp : Cmd.vparser) (s : bytes), ErrorSound.in_lang vp s <-> TypedWide.stored_reading vp s.
 Proof. exact TypedWide.in_lang_reading. Qed.
 Print Assumptions C04_in_lang_reading.
+
+(** two names, one parser: the parser model's older constructors are instances of VPRanged (the i64 parser with
+    inclusive bounds; the u8 parser an ArgAction::Count argument gets by default) -- so every statement about
+    VPRanged also reads the older ones, and vice versa *)
+Theorem C04_ranged_alias :
+  forall (lo hi : Z) (s : bytes),
+         Parser.vp_parse (Cmd.VPRanged I64 lo hi) s = Parser.vp_parse (Cmd.VPI64 lo hi) s /\
+         Parser.vp_parse (Cmd.VPRanged U8 0 255) s = Parser.vp_parse Cmd.VPCount s.
+Proof. exact TypedWide.ranged_alias. Qed.
+Print Assumptions C04_ranged_alias.
